@@ -149,7 +149,7 @@ class ReadStand:
     # -- environment ------------------------------------------------------------
     def arrive(self, cls: str, t: int, fid: int):
         hs = F.hdr_struct(self.timecode).size
-        if cls == "zerolen":
+        if cls in ("zerolen", "wrongver0"):
             t = 14
         size = self.sizes.get(t, 10)
         payload = bytes(((fid * 37 + i) & 0x7F) or 1 for i in range(size))
@@ -158,7 +158,9 @@ class ReadStand:
             t, payload, ver = 4321, bytes(range(1, 11)), 12345
         elif cls == "wrongsize":
             payload = payload + b"\x55" * 4 if fid % 2 else payload[: max(0, size - 1)]
-        elif cls == "wrongver":
+        elif cls == "wrongsize0":
+            payload = b""
+        elif cls in ("wrongver", "wrongver0"):
             ver = (ver + 1) & 0xFFFFFFFF or 1
         elif cls == "zerover":
             ver = 0
